@@ -1,13 +1,66 @@
-import Rooc.Wire
+import Rooc.WireModel
+import Rooc.Ref
 import Rooc.Oracle
 namespace Rooc.Drv.C03
-open Rooc Sexp
+open Rooc Sexp Sem
 
-/-- model requests for C03 (run at `Float` for the exact diff, at `Ext Rat` as oracle). -/
 def handle (α : Type) [Arith α] [Wire α] : List Sexp → Sexp
   | _ => app "err" [.atom "bad-request"]
 
-/-- exact oracle: the PROPERTY evaluated on the implementation's own answer. -/
+def decAssign : Sexp → Option (List (String × Rat))
+  | .list (.atom "assign" :: ps) => optAll (ps.map fun
+      | .list [.str n, v] => match (decNumS v : Option (Ext Rat)) with
+        | some (.fin q) => some (n, q)
+        | _ => none
+      | _ => none)
+  | _ => none
+
+def encRat (q : Rat) : Sexp := .atom (Wire.enc (Ext.fin q : Ext Rat))
+def absR (q : Rat) : Rat := if q < 0 then -q else q
+def close (a b : Rat) : Bool := absR (a - b) ≤ (max 1 (max (absR a) (absR b))) / 1000000
+
+/-- snap a returned float value to the integer it denotes (within 1e-6) for discrete variables. -/
+def snap (m : Model (Ext Rat)) (a : List (String × Rat)) : List (String × Rat) :=
+  a.map fun (n, v) =>
+    let discrete : Bool := match (m.domain.find? (·.name == n)).map (·.ty) with
+      | some (VarType.bool) => true
+      | some (VarType.int _ _) => true
+      | _ => false
+    let r : Rat := ((v + 1/2).floor : Int)
+    if discrete && absR (v - r) ≤ 1/1000000 then (n, r) else (n, v)
+
+/-- exact oracle for C03/C16-style end-to-end answers: `ref <model> <outcome>`. -/
 def oracle : List Sexp → Sexp
+  | [.atom "ref", m, outcome] =>
+    match (Model.dec m : Option (Model (Ext Rat))) with
+    | none => app "err" [.atom "decode"]
+    | some m =>
+      let verdict := Ref.refSolve m
+      match verdict, outcome with
+      | .continuous, _ => app "ok" [.atom "skipped-continuous"]
+      | .undefinedObjective, _ => app "ok" [.atom "skipped-undefined-objective"]
+      | .infeasible, .list [.atom "infeasible"] => app "ok" [.atom "infeasible"]
+      | .infeasible, .list (.atom "solution" :: _) => app "violation" [.atom "solution-for-infeasible-model"]
+      | .infeasible, o => app "violation" [.atom "wrong-verdict-for-infeasible-model", o]
+      | .feasibleAny w, .list [.atom "solution", _, asg] | .optimal _ w, .list [.atom "solution", _, asg] =>
+        match decAssign asg with
+        | none => app "err" [.atom "decode-assignment"]
+        | some a =>
+          let a := snap m a
+          let ρ := Ref.lookup a
+          if !(srcFeasible m ρ) then
+            app "violation" [.atom "returned-point-infeasible", Oracle.encAssign a, Oracle.encAssign w]
+          else match verdict, outcome with
+            | .optimal v _, .list [.atom "solution", rv, _] =>
+              match (decNumS rv : Option (Ext Rat)), eval ρ m.objective with
+              | some (.fin reported), some actual =>
+                if !(close reported actual) then
+                  app "violation" [.atom "objective-mismatch", encRat reported, encRat actual]
+                else if !(close actual v) then
+                  app "violation" [.atom "not-optimal", encRat actual, encRat v, Oracle.encAssign w]
+                else app "ok" [.atom "optimal"]
+              | _, _ => app "violation" [.atom "objective-not-finite"]
+            | _, _ => app "ok" [.atom "feasible"]
+      | .feasibleAny _, o | .optimal _ _, o => app "violation" [.atom "no-solution-for-feasible-model", o]
   | _ => app "err" [.atom "bad-request"]
 end Rooc.Drv.C03
